@@ -101,9 +101,12 @@ def fresh(rep, tier, seed):
         for f in glob.glob(prefix + '.*'):
             os.remove(f)
     order.sort()
+    over = {n for n, rows in cxx.items() if rows and rows[0] == 'over-capacity'}
+    rep.coverage['fresh_zones_beyond_processor_capacity_not_compared'] = sorted(label[n][-1] if n in label else n for n in over)[:20]
     if [n for _, n in order] != emitted:
         raise runner.Broken('generated registry does not list the emitted zones: %d vs %d' % (len(order), len(emitted)))
     n_tab = n_q = n_loc = n_bp = 0
+    order = [(i, n) for i, n in order if n not in over]
     for name, viol, a, b, c_, nb in equiv.compare(comp.zone_infos, cxx, locs, order, y0, y1, grid=(86400 if thorough else 30 * 86400), all_opts_local=thorough):
         n_tab += a; n_q += b; n_loc += c_; n_bp += nb
         for k, dd in viol:
